@@ -469,19 +469,22 @@ func tracedVanish() {
 	v.Send(net.Call, 1, 1, 0, v.NextID(), regPayload(1, which, 92))
 	vrt.Quiesce()
 	vrt.Explore()
+	we := vrt.GoWorker("emitter", func() { w.Root.Helper.SignalTick(7) })
+	wv := vrt.GoWorker("vanisher", func() { v.Raw.Close() })
+	vrt.Quiesce()
+	fx.Settle(wv)
+	// the race under test is over: the probes run on the default schedule
+	vrt.Freeze()
+	if !we.Done() {
+		vrt.Failf("=deadlock/traced-subscribers", "the service's own emission of tick never returned (blocked on %s): tracing on, two traced subscriptions of one connection to signal %d, a subscriber of signal %d vanished meanwhile", we.BlockedOn(), twice, which)
+		return
+	}
 	okCall := false
 	wc := vrt.GoWorker("caller", func() {
-		// the service emits tick (its traced subscribers are notified), then a call
-		// of an established client is traced
-		w.Root.Helper.SignalTick(7)
 		if r, err := pg.Echo(23); err == nil && r == probe.EchoResult(23) {
 			okCall = true
 		}
 	})
-	wv := vrt.GoWorker("vanisher", func() { v.Raw.Close() })
-	vrt.Quiesce()
-	fx.Settle(wv)
-	vrt.Freeze()
 	okRoot := false
 	pw := vrt.GoWorker("probe-client", func() {
 		c, err := w.Connect("", "")
